@@ -176,9 +176,19 @@ func (d *Driver) issueMsg(c int, sender string) sdk.Msg {
 		MintRestricted: d.V.Flags[c][0], UpdateRestricted: d.V.Flags[c][1], Description: "d", Uri: "classuri", UriHash: "classhash", Data: `{"k":1}`}
 }
 
+// mintMeta: the second token of the first class is minted bare (no name, no data: its metadata encodes to zero
+// bytes) and sorts after the first one - whatever loops over a class's tokens must not carry values over.
+func mintMeta(slot int) meta {
+	if slot == 1 {
+		return meta{"", metaMint.URI, metaMint.Hash, ""}
+	}
+	return metaMint
+}
+
 func mintMsg(slot int, sender, rcpt string) sdk.Msg {
 	sd := slots[slot]
-	return &nfttypes.MsgMintNFT{Id: sd.id, DenomId: classID[sd.c], Name: metaMint.Name, URI: metaMint.URI, UriHash: metaMint.Hash, Data: metaMint.Data,
+	mm := mintMeta(slot)
+	return &nfttypes.MsgMintNFT{Id: sd.id, DenomId: classID[sd.c], Name: mm.Name, URI: mm.URI, UriHash: mm.Hash, Data: mm.Data,
 		Sender: addr(sender), Recipient: addr(rcpt)}
 }
 
@@ -567,7 +577,7 @@ func (d *Driver) Apply(e *mc.Env, s *mc.State, op mc.Op) []mc.Finding {
 	case "mint":
 		// the property does not say which metadata a mint stores: whatever it is, it is the token's
 		// metadata from now on
-		m.tok[od.slot] = token{exists: true, owner: od.rcpt, m: metaMint}
+		m.tok[od.slot] = token{exists: true, owner: od.rcpt, m: mintMeta(od.slot)}
 		al = allowance{slot: od.slot, fields: [4]bool{true, true, true, true}}
 	case "edit", "transfer":
 		if m.tok[od.slot].exists {
